@@ -217,7 +217,17 @@ def d2(cx: Cx, ob: Ob) -> None:
                 ok = True
             if not ok:
                 ob.violate(fn.qualname, where(fn, ev.line), f"{name} stores into `{show(key)[:60]}`; expected column if target_column is None else target_column", detail="target")
-            src = ev.b[1][1] if op(ev.b) == "call" and op(ev.b[1]) == "attr" else None
+            val = ev.b
+            if op(val) == "call" and op(val[1]) == "attr" and val[1][2] == "astype" and len(val[2]) == 1:
+                # a cast of the mapped column: to `object` it keeps every cell as it is (str / None); to any other dtype
+                # (the SOURCE column's: categories, fixed-width strings, numbers) converted cells that the dtype cannot
+                # hold are coerced or become NaN
+                if val[2][0] in (("builtin", "object"), ("const", "object"), ("const", "O")):
+                    val = val[1][1]
+                else:
+                    ob.violate(fn.qualname, where(fn, ev.line), f"{name} casts the converted column to `{show(val[2][0])[:40]}`: cells whose converted value that dtype cannot hold (new categories of a categorical column, ..) are altered or lost, so the column is no longer what the scalar method gives cell by cell", witness="a column of dtype 'category': every converted cell that is not already a category becomes NaN", detail="cast-after-map")
+                    continue
+            src = val[1][1] if op(val) == "call" and op(val[1]) == "attr" else None
             if src != ("item", df, col):
                 ob.violate(fn.qualname, where(fn, ev.line), f"{name} reads `{show(src)[:40] if src else '?'}`, not df[column]", detail="source")
 
